@@ -1,6 +1,10 @@
 // C05 verification master: permissive policies; applies made by efuns call back into scripted objects
 #include "/include/vcommon.h"
 
+// destruct(master()) reloads this file: create() of the NEW copy asks the object under test whether it has work for it
+// (a generated body that runs - and can fail - while destruct_object() holds the fix_object_names error-handler slot)
+void create () { object o; o = find_object ("/c05/gen/t"); if (o) o->mcreate (); }
+
 private object connect (int port) { return new ("/vuser.c"); }
 string creator_file (string file) { return "Root"; }
 string get_root_uid () { return "Root"; }
